@@ -212,9 +212,12 @@ def targets(ctx):
                      min_size=1, max_size=6).map(lambda ws: "_".join(ws) if len(ws) % 2 else "".join(ws)).filter(lambda s: bool(IDENT.match(s)))
     rand = st.lists(st.one_of(ident, wordy), min_size=1, max_size=20).map(lambda ns: {"names": ns})
 
+    from . import _seq
+
     return [
         Target("identifiers_exhaustive", batch_ev, cases=exhaustive_cases, exhaustive=True, rule=f"all legal identifiers of length <= {max_len} over {ALPHABET!r}"),
         Target("keywords_builtins_realworld", batch_ev, cases=corpus_cases, exhaustive=True, shard_cases=False),
         Target("protoc_legality_probe", protoc_ev, cases=protoc_cases, exhaustive=True, shard_cases=False),
         Target("identifiers_random", batch_ev, strategy=rand, quick=150, thorough=1500),
+        _seq.target("C19"),
     ]
